@@ -90,7 +90,17 @@ CHECKS["C07"] = (
     "lengths/frames driver-enumerated, offsets symbolic; a realised variant covers more length/frame vectors); sequences/translation on "
     "the chunk equal the in-window stretch; CDS never dropped while the transcript stays coding. F8b excluded by its exact region.",
     _NOTE, "DESIGN.md §3 C07")
-for _p in [ "C08", "C09", "C10", "C11", "C13", "C17",
+CHECKS["C08"] = (
+    _CH + "; cvc5/z3 string queries over digest pre-image templates extracted from the real constructors",
+    "Dictionary round trips of all eight interval/collection classes with fully symbolic coordinates (chunk parents with symbolic "
+    "offset included); with the real MD5 on realised coordinates: equal content/any qualifier order/round trip => equal guid, one "
+    "changed coordinate/strand/frame => different guid; digest pre-image injectivity for coordinates of ANY length <= 9 digits as "
+    "unsat string queries (templates regenerated by running the real constructors with md5 recorded, validated on a second run); "
+    "qualifier key/value insertion orders and set iteration orders (6x6x6); pickle with none/chromosome/chunk parents; schema+JSON "
+    "load/dump. F7 (VariantInterval pre-image without separator) recorded.",
+    _NOTE + " MD5 collision freedom assumed; pickle's byte format and a process-level PYTHONHASHSEED sweep are outside the claim.",
+    "DESIGN.md §3 C08")
+for _p in [ "C09", "C10", "C11", "C13", "C17",
            "C19", "C20"]:
     NOT_APPLICABLE[_p] = "check not built yet (build in progress; see DESIGN.md §3 for the planned solver-based check)"
 NOT_APPLICABLE["C12"] = ("GenBank writer cannot emit a feature on the installed Biopython (SeqFeature(strand=) TypeError), the "
